@@ -124,7 +124,12 @@ def build_exhaustive(sc, sh, pid, l, sig, part=None):
             fixed_i, hidden_i = sorted(fl + [(i, v)]), sorted(fl + [(i, None)])
             # ... and adjustments that only change the slot's value to a NEAR MISS of the old one (same low or high words, one bit)
             near_i = sorted(fl + [(i, wkd.near(v, rng))])
-            for frm, to, tag in ((fixed_i, hidden_i, 'hide'), (hidden_i, fixed_i, 'unhide'), (fixed_i, near_i, 'revalue-near')):
+            # ... and adjustments that give the slot BACK (fixed or hidden in `from`, not listed in `to`): the key regains free slots, which
+            # land in the part of its slot array that the previous, shorter key did not use
+            others = [j for j in free_slots(pat) if j != i][:1]
+            fixed_2 = sorted(fl + [(i, v)] + [(j, val()) for j in others])
+            for frm, to, tag in ((fixed_i, hidden_i, 'hide'), (hidden_i, fixed_i, 'unhide'), (fixed_i, near_i, 'revalue-near'), (fixed_i, sorted(fl), 'free-again'),
+                                 (hidden_i, sorted(fl), 'free-again-hidden'), (fixed_2, sorted(fl), 'free-again-2'), (fixed_2, fixed_i, 'free-again-1of2')):
                 saved = sc.nkey
                 sc.nkey = 200 + (saved * 7 + len(sc.lines)) % 48
                 k1 = sc.newkey()
